@@ -277,6 +277,16 @@ def setModelAgrees : Bool :=
     | none, none => Nat.beq (tt.acceptStatus e sh) 2
     | _, _ => false
 
+/-- printable ASCII without the space: such a string is a token of the text layer -/
+def codesTok (c : Codes) : Bool := !c.isEmpty && c.all fun x => Nat.blt 32 x && Nat.blt x 127
+
+/-- every element symbol is a token and none is the dummy marker `*` of the xyz reader -/
+def symsOk : Bool :=
+  allBelow tt.nE fun e => codesTok (tt.sym e) && !(Nat.beq (pack (tt.sym e)) 42)
+
+/-- every emitted atom-type token is a (non-empty, whitespace-free) token -/
+def tokensOk : Bool := tt.allEmitted fun e sh => codesTok (tt.tokenCodes e sh)
+
 /-- `Element.get(e.symbol)` is `e`, for every element -/
 def symbolRoundtrip : Bool :=
   allBelow tt.nE fun e => match tt.elementGet (tt.sym e) with
@@ -329,6 +339,9 @@ def tokenAccepted : Bool :=
   TypeTable.allBelow bt.nB fun b => match bt.acceptCodes (bt.emitCodes b) with
     | some b' => Nat.blt b' bt.nB
     | none => false
+
+/-- every bond type is written as a (non-empty, whitespace-free) token -/
+def tokensOk : Bool := TypeTable.allBelow bt.nB fun b => TypeTable.codesTok (bt.emitCodes b)
 
 /-- the bond types the Tripos mol2 format can express, with their standard tokens -/
 def expressible : List (Codes × Nat) :=
